@@ -375,13 +375,13 @@ func (w *world) close(ctx context.Context) {
 }
 
 // dial makes one pending connection whose peer keeps sending and draining, so that guest accept/recv/send never block.
-func (w *world) dial() {
+func (w *world) dial() bool {
 	if w.addr == "" {
-		return
+		return false
 	}
-	cn, err := net.DialTimeout("tcp", w.addr, 2*time.Second)
+	cn, err := net.DialTimeout("tcp", w.addr, 5*time.Second)
 	if err != nil {
-		return
+		return false
 	}
 	w.conns = append(w.conns, cn)
 	go func() {
@@ -394,6 +394,7 @@ func (w *world) dial() {
 	}()
 	go func() { io.Copy(io.Discard, cn) }()
 	time.Sleep(2 * time.Millisecond)
+	return true
 }
 
 type fdInfo struct {
@@ -531,9 +532,18 @@ func (w *world) call(ctx context.Context, tag, fn string, a []uint64, place func
 	cs.Tbl = w.table()
 	cs.Tcap = w.fsc.ZZCap()
 	w.log = w.log[:0]
-	if fn == "sock_accept" && w.sock {
-		w.dial()
+	if fn == "sock_accept" && w.sock && !w.dial() {
+		// no pending connection could be made: accepting on the (blocking) listener would wait forever
+		if f, ok := w.fsc.LookupFile(int32(uint32(a[0]))); ok {
+			if _, isSock := f.File.(socketapi.TCPSock); isSock {
+				return nil
+			}
+		}
 	}
+	// everything recorded so far reaches the pipe before the call, and the call itself is announced, so that a
+	// fatal error of the runtime (out of memory under the cap) is attributed to the right call
+	out.Emit(map[string]any{"next": fn, "args": a, "world": w.id})
+	out.Flush()
 	f := w.mod.ExportedFunction(fn)
 	wd := time.AfterFunc(30*time.Second, func() {
 		cs.Res = result{Kind: "hang"}
